@@ -1179,6 +1179,9 @@ def main(ctx, replay):
             _report(ctx, "model-stale", "run.go/http.go no longer match what Model/Reload.v encodes: " + "; ".join(lint),
                      {"kind": "obligation", "no_failing_input_found": True, "discrepancies": lint,
                       "note": "failed-reload cases, visibility scenarios, file traces and mutations were run on the implementation and showed no unlisted property failure"})
+    # a reload must not be reported as applied while the push dispatcher keeps values it was built from at start-up (lib/restartclass.py)
+    from lib import restartclass
+    dist.update(restartclass.run(ctx, info))
     cov.update({
         "evaluations": evaluations,
         "distinct_nontrivial": len(nontrivial),
